@@ -122,6 +122,11 @@ func (s *Session) Deliver(out []byte, incoming []byte, now time.Time) (bool, []b
 		if !s.rp.ValidateCounter(uint64(nonce), MaxNonce) {
 			return false, nil, nil
 		}
+		if s.nonce < noncePostHandshake {
+			// the initiator completes here when RespDone was lost:
+			// handshake counters must not be reused for data.
+			s.nonce = noncePostHandshake
+		}
 		s.hsIndex = 8 // successfully received a packet
 		return true, out, nil
 	}
